@@ -12,6 +12,9 @@ ASSUME = [
     "with its own SHA-256/XOR arithmetic; the TLA+ trace spec compares them with what the real table did",
     "'connected' is judged by what the caller reported (on_connection_established through either endpoint kind, or "
     "add/insert as Connected, and no disconnect / other connection type since) as well as by the table's own field",
+    "a call that does not store a peer (dial failure, connection established, disconnect, lookup, closest, add without "
+    "addresses; for stored or absent keys) must leave every other stored entry as it was; an insertion displaces only "
+    "from the full bucket the new peer goes to",
     "the slot KBucket::entry pushes when it answers Vacant (random id, no address) is modelled in the Impl layer; the "
     "Prop layer counts it for the capacity bound but not as a stored peer for placement (nobody supplied that id)",
     "callers insert into a Vacant entry only the peer the entry was looked up for (as RoutingTable::add_known_peer does)",
@@ -163,6 +166,18 @@ def _table_clause(seg, idx):
                 return "connected-peer-displaced"
             if known(new) - known(tab) - own:
                 return "unknown-peer-stored"
+            ent = lambda t: {(i, e[0], e[1], e[2]) for i, b in t.items() for e in b if e[4] == 1 and e[0] not in own}
+            inserting = (o["op"] == "add" and o["ha"] == 1) or (o["op"] == "insert" and ret == "vacant")
+            if not inserting:
+                if known(tab) - known(new) - own:
+                    return "stored-peer-lost-without-insertion"
+                if ent(new) != ent(tab) or (own & known(new)) - known(tab):
+                    return "stored-entry-changed-without-insertion"
+            else:
+                for i, b in tab.items():
+                    for e in b:
+                        if e[4] == 1 and e[0] not in known(new) and e[0] not in own and (i != o["xb"] or len(tab.get(o["xb"], [])) < K):
+                            return "peer-displaced-without-need"
             return "table"
         if o["op"] == "est":
             led.add(o["p"])
@@ -393,6 +408,17 @@ def selftest(ctx):
                    os.path.join(mdir, "KadRoutingMC.tla")], timeout=600, cwd=mdir)
     hit = "StepOK is violated" in out
     log("selftest spec mutant (inbound connection not recorded) -> %s" % ("violated" if hit else "NOT violated"))
+    ok &= hit
+    # KBucket::entry blanks the evictable slot of a full bucket before handing it out: a mere lookup of an
+    # absent key erases a stored peer
+    old = '''ELSE IF rep # {} THEN [kind |-> "vacant", i |-> xb, j |-> MinOf(rep), bk |-> bk]'''
+    assert old in src
+    open(os.path.join(mdir, "KadRouting.tla"), "w").write(src.replace(
+        old, 'ELSE IF rep # {} THEN [kind |-> "vacant", i |-> xb, j |-> MinOf(rep), bk |-> [bk EXCEPT ![xb][MinOf(rep)] = Placeholder]]'))
+    rc, out = run(["tlc", "-workers", "4", "-metadir", ctx.metadir(), "-cleanup", "-noGenerateSpecTE", "-config", cfgp,
+                   os.path.join(mdir, "KadRoutingMC.tla")], timeout=600, cwd=mdir)
+    hit = "StepOK is violated" in out
+    log("selftest spec mutant (lookup of an absent key blanks a stored entry) -> %s" % ("violated" if hit else "NOT violated"))
     ok &= hit
     log("SELFTEST %s (%d corruptions tried, %d D11 events in the good trace)" % ("ok" if ok and tried == len(muts) else "FAILED", tried, len(hits)))
     return 0 if ok and tried == len(muts) else 2
